@@ -1,0 +1,18 @@
+//go:build verif
+
+package loader
+
+// Contracts checked by /verif (govc). Comment-only file: it adds no code.
+
+//@ ghost func cleanRelative(n string) bool = pclean(n) == n && n != "." && !strings.HasPrefix(n, "/") && !strings.HasPrefix(n, "..") && !reMatch(drivePathPattern, n)
+//@ ghost func namesOK(files []*BufferedFile) bool = forall j int :: 0 <= j && j < len(files) ==> files[j] != nil && cleanRelative(files[j].Name)
+
+//@ func LoadArchiveFiles
+//@   props C16
+//@   requires MaxDecompressedChartSize > 0 && MaxDecompressedFileSize > 0
+//@   ensures [names] err == nil ==> namesOK(result)
+//@   ensures [total-limit] GbytesRead - old(GbytesRead) <= MaxDecompressedChartSize
+//@   ensures [nonempty] err == nil ==> len(result) > 0
+//@   loop 1 invariant [names] namesOK(files)
+//@   loop 1 invariant [budget] 0 < remainingSize && remainingSize <= MaxDecompressedChartSize
+//@   loop 1 invariant [accounting] (GbytesRead - old(GbytesRead)) + remainingSize == MaxDecompressedChartSize
